@@ -18,6 +18,7 @@ package main
 import (
 	"fmt"
 	"math"
+	"runtime"
 	"sort"
 	"strconv"
 	"strings"
@@ -524,6 +525,10 @@ func (c *Ctx) c09RunShapes(tag string, groups [][]c09Shape, cpu, cutoff float64,
 	if tag == "pipe" {
 		how = c.Rng.Intn(3)
 	}
+	c.c09RunShapesVia(tag, groups, cpu, cutoff, strictOp, how)
+}
+
+func (c *Ctx) c09RunShapesVia(tag string, groups [][]c09Shape, cpu, cutoff float64, strictOp string, how int) {
 	c.Note(fmt.Sprintf("%s.filled-by=%s", tag, []string{"AddField", "AddFieldParallel", "AddFieldParallel2"}[how]))
 	toks := []string{}
 	var mesh modeling.Mesh
@@ -946,8 +951,29 @@ func (c *Ctx) c09WeldPinchWitness() {
 	c.Emit("c09.holds.closed_or_weld_pinch", F(37)+" "+c09MeshTokens(mesh, true, true), "true")
 }
 
+// one field covering MORE blocks than there are CPUs (and not a multiple of their number): a long thin capsule along x
+// through `blocks` storage blocks (one block wide in y and z), filled through a parallel adder.  A work split that forgets
+// the remainder blocks (seed m14) leaves part of the capsule unsampled: not closed, not balanced.
+func (c *Ctx) c09LongParallelCase(blocks int, how int) {
+	cpu := 5.0
+	r := 2.3
+	x0 := 50.37
+	x1 := 50.37 + 100*float64(blocks-1) + 0.41
+	sh := c09Shape{kind: 2, a: vector3.New(x0/cpu, 50.21/cpu, 49.83/cpu), b: vector3.New(x1/cpu, 51.07/cpu, 50.49/cpu), r: r / cpu, strength: 1}
+	c.Note(fmt.Sprintf("long.blocks=%d(NumCPU=%d)", blocks, runtime.NumCPU()))
+	c.c09RunShapesVia("long", [][]c09Shape{{sh}}, cpu, 0, "c09.holds.closed", how)
+}
+
 func runC09(c *Ctx) {
 	c.c09EmptyCases()
+	// more blocks than CPUs: NumCPU+1 in both tiers, 2·NumCPU+3 in the thorough tier, through both parallel adders
+	ncpu := min(runtime.NumCPU(), 32)
+	for _, how := range []int{1, 2} {
+		c.c09LongParallelCase(ncpu+1, how)
+		if c.Tier == "thorough" {
+			c.c09LongParallelCase(2*ncpu+3, how)
+		}
+	}
 	c.c09WeldPinchWitness()
 	c.c09AccumulatedCases(c.N / 2)
 	// lattice-aligned / exact-cutoff classes: the fixed catalogue in both tiers, then N random members
